@@ -87,6 +87,12 @@ def _mk_reference(rd):
     r.journal = rd.get("journal", "J. Sim. %s" % rd["id"])
     if rd.get("pubmed_id"):
         r.pubmed_id = rd["pubmed_id"]
+    if rd.get("comment"):
+        r.comment = rd["comment"]
+    if rd.get("location"):
+        from Bio.SeqFeature import FeatureLocation
+
+        r.location = [FeatureLocation(rd["location"][0], rd["location"][1])]
     return r
 
 
@@ -132,7 +138,9 @@ def build_pool(cat, strip_citations=False):
                 elif fd.get("citation") and not strip_citations:
                     q["citation"] = ["[%d]" % c for c in fd["citation"]]
                 feats.append(SeqFeature(_mk_location(fd["parts"]), type=fd["type"], id=fd.get("fid", "<unknown id>"), qualifiers=q))
-            ann = {"topology": rd.get("topology", "circular"), "molecule_type": "DNA"}
+            ann = {"molecule_type": "DNA"}
+            if rd.get("topology", "circular") is not None:
+                ann["topology"] = rd.get("topology", "circular")
             for k, v in (rd.get("annotations") or {}).items():
                 ann[k] = v
             rec = CircularRecord(Seq(rd["seq"]), id=rd.get("rec_id", rd["id"]), name=rd.get("name", rd["id"]), description=rd.get("description", "synthetic " + rd["id"]), dbxrefs=list(rd.get("dbxrefs", [])), features=feats, annotations=ann)
@@ -171,8 +179,11 @@ def apply_edit(cat, pool, op, strip=False):
     elif op["op"] == "edit_citation":
         for f in rec.features:
             if ("uid:" + op["uid"]) in f.qualifiers.get("note", []):
-                if op["citation"]:
-                    f.qualifiers["citation"] = ["[%d]" % c for c in op["citation"]]
+                new = ["[%d]" % c for c in op["citation"]]
+                if op.get("in_place") and isinstance(f.qualifiers.get("citation"), list) and new:
+                    f.qualifiers["citation"][:] = new      # the caller edits the list it already holds
+                elif new:
+                    f.qualifiers["citation"] = new
                 else:
                     f.qualifiers.pop("citation", None)
     elif op["op"] == "edit_annot":
@@ -197,7 +208,7 @@ def apply_edit(cat, pool, op, strip=False):
 
 
 def _canon_ref(r):
-    return {"Reference": [getattr(r, a, None) for a in ("title", "authors", "journal", "consrtm", "medline_id", "pubmed_id", "comment")], "loc": [repr(l) for l in getattr(r, "location", [])]}
+    return {"Reference": [getattr(r, a, None) for a in ("title", "authors", "journal", "consrtm", "medline_id", "pubmed_id", "comment")], "loc": [[int(l.start), int(l.end)] if hasattr(l, "start") else repr(l) for l in getattr(r, "location", [])]}
 
 
 def _canon_value(v):
@@ -211,7 +222,7 @@ def _canon_value(v):
         return [_canon_value(x) for x in v]
     if isinstance(v, dict):
         return {str(k): _canon_value(x) for k, x in v.items()}
-    return repr(v)
+    return re.sub(r" at 0x[0-9a-fA-F]+", "", repr(v))  # never let an address into a digest
 
 
 def _canon_loc(loc):
@@ -227,7 +238,9 @@ def snapshot(rec):
         if k == "references":
             continue
         ann[str(k)] = _canon_value(v)
-    refs = [_canon_ref(r) if hasattr(r, "title") else _canon_value(r) for r in rec.annotations.get("references", [])]
+    # isinstance, not duck typing: a str has a .title METHOD, and a stray "[1]" string in a
+    # reference list must show up as that string, not as an address-bearing repr
+    refs = [_canon_value(r) for r in rec.annotations.get("references", [])]
     return {
         "type": type(rec).__name__,
         "seq": str(rec.seq),
@@ -663,8 +676,13 @@ def _ref_key(canon_ref):
 
 
 def _ref_content_key(c):
-    """(title, authors, journal) of a canonical reference."""
-    return tuple(c["Reference"][:3]) if isinstance(c, dict) and "Reference" in c else None
+    """Everything Biopython's Reference.__eq__ compares, from a canonical reference."""
+    return (tuple(c["Reference"]), tuple(tuple(x) if isinstance(x, list) else x for x in c.get("loc", []))) if isinstance(c, dict) and "Reference" in c else None
+
+
+def _ref_def_key(r):
+    loc = [tuple(r["location"])] if r.get("location") else []
+    return ((r["title"], r["authors"], r.get("journal", "J. Sim. %s" % r["id"]), "", "", r.get("pubmed_id", ""), r.get("comment", "")), tuple(loc))
 
 
 def current_citations(cat, edits=()):
@@ -690,7 +708,7 @@ def current_citations(cat, edits=()):
 
 
 def _content_to_id(cat):
-    return {(r["title"], r["authors"], r.get("journal", "J. Sim. %s" % r["id"])): r["id"] for r in cat.get("refs", [])}
+    return {_ref_def_key(r): r["id"] for r in cat.get("refs", [])}
 
 
 def citations_of_snapshot(cat, snap):
@@ -1095,6 +1113,17 @@ def gen_scenario(g, kind=None):
         # distinct references sharing a title (GenBank's "Direct Submission" entries)
         for r in g.sample(refs, 2):
             r["title"] = "Direct Submission"
+    if n_refs_total >= 2 and g.random() < 0.25:
+        # the same paper entered twice, told apart only by the span it documents and/or a remark
+        # (GenBank: REFERENCE 1 (bases 1 to 40) / REFERENCE 2 (bases 41 to 80))
+        a_, b_ = g.sample(refs, 2)
+        for k_ in ("title", "authors"):
+            b_[k_] = a_[k_]
+        a_["journal"] = b_["journal"] = "J. Sim. twin"
+        if g.random() < 0.7:
+            a_["location"], b_["location"] = [0, 40], [41, 80]
+        else:
+            b_["comment"] = "second entry"
     dup_refs = g.random() < 0.15       # one record lists the same reference twice
     malformed = g.random() < 0.06      # one feature carries a dangling / malformed citation
     pool, wrappers = [], []
@@ -1111,7 +1140,7 @@ def gen_scenario(g, kind=None):
         rl = ref_list()
         if dup_refs and rl and g.random() < 0.5:
             rl = rl + [g.choice(rl)]
-        rd = {"id": rid, "role": role, "seq": seq, "topology": "circular", "references": rl, "name": rid, "description": "synthetic %s %s" % (role, rid),
+        rd = {"id": rid, "role": role, "seq": seq, "topology": "circular" if g.random() < 0.85 else None, "references": rl, "name": rid, "description": "synthetic %s %s" % (role, rid),
               "dbxrefs": ["SIM:%s" % rid] if g.random() < 0.3 else [], "features": _gen_features(g, rid, len(seq), seg, len(rl or []), rid)}
         if g.random() < 0.2:
             rd["annotations"] = {"keywords": ["kw-" + rid], "organism": "synthetic"}
@@ -1135,13 +1164,19 @@ def gen_scenario(g, kind=None):
         seq, seg = dna.make_vector(g, geom2, a2[0], a2[2], g.randint(4, 30), g.randint(20, 80), all_sites=(geom["site"],))
         rd2 = add("V2", "vector", seq, seg, "gen:CassetteVector:%s" % geom2["name"])
         rd2["broken_seq"] = _break_site(rd2["seq"], geom2["site"])
-        level2 = {"vec": "w:V2", "mod_cls": "gen:Cassette:%s" % geom2["name"], "makers": [["P1", "w:V0"], ["P2", "w:VB"]]}
+        level2 = {"vec": "w:V2", "mod_cls": "gen:Cassette:%s" % geom2["name"], "makers": [["P1", "w:V0"], ["P2", "w:VB"]], "alts": {}}
     else:
         seq, seg = dna.make_vector(g, geom, chain[0], chain[-1], g.randint(4, 30), g.randint(20, 120))
         add("V0", "vector", seq, seg, vcls)
     for i in range(n):
         seq, seg = dna.make_module(g, geom, chain[i], chain[i + 1], g.randint(2, 60), g.randint(10, 80), all_sites=other_sites)
         add("M%d" % i, "module", seq, seg, mcls)
+        if two_level:
+            # an interchangeable part for the same position, with its own features and references,
+            # so that two kept products differ in what they cite
+            seq, seg = dna.make_module(g, geom, chain[i], chain[i + 1], g.randint(2, 40), g.randint(10, 60), all_sites=other_sites)
+            add("A%d" % i, "module", seq, seg, mcls)
+            level2["alts"]["w:M%d" % i] = "w:A%d" % i
     extras = []
     if g.random() < 0.6:  # duplicate start overhang
         i = g.randrange(n)
@@ -1339,7 +1374,7 @@ def gen_case(spec):
         if lv2 and x < 0.16:
             # keep a product for the next level (never faulted: it becomes part of the shared pool)
             pid, vec = g.choice(lv2["makers"])
-            mods = list(sc["chain"])
+            mods = [lv2["alts"].get(m_, m_) if g.random() < 0.5 else m_ for m_ in sc["chain"]]
             g.shuffle(mods)
             call = {"op": "assemble", "vec": vec, "mods": mods, "out_name": pid, "keep": pid, "keep_cls": lv2["mod_cls"]}
             if g.random() < 0.7:
@@ -1377,7 +1412,7 @@ def gen_case(spec):
             if cands:
                 rd, fd = g.choice(cands)
                 nref = len(rd["references"])
-                add(client, {"op": "edit_citation", "rec": rd["id"], "uid": fd["uid"], "citation": sorted(g.sample(range(1, nref + 1), g.randint(0, min(2, nref))))})
+                add(client, {"op": "edit_citation", "rec": rd["id"], "uid": fd["uid"], "citation": sorted(g.sample(range(1, nref + 1), g.randint(0, min(2, nref)))), "in_place": g.random() < 0.5})
         elif x < 0.94:
             add(client, {"op": "probe", "h": g.choice(cat["wrappers"])["h"], "method": g.choice(["target_sequence", "target_sequence", "overhang_start", "overhang_end", "is_valid"])})
         elif x < 0.97:
